@@ -151,8 +151,8 @@ def run_models(ctx):
             m2.fit(da, "time", weights=w) if w is not None else m2.fit(da, "time")
             ms = int(rng.integers(1, 6))
             S = rng.standard_normal((ms, k)) * scale
-            if cfg["cls"] == "ComplexEOF":
-                S = S + 1j * rng.standard_normal((ms, k)) * scale
+            if cfg["cls"] == "ComplexEOF" and rng.random() < 0.6:
+                S = S + 1j * rng.standard_normal((ms, k)) * scale      # otherwise: a real-valued score array for a complex model
             tcoord = (np.arange(ms) * 7 + 100) if rng.random() < 0.5 else rng.permutation(ms)
             Sd = xr.DataArray(S, dims=("time", "mode"), coords={"time": tcoord, "mode": np.arange(1, k + 1)})
             nv = m2.singular_values().values
